@@ -152,3 +152,34 @@ Definition spec_slice (l : list item) (start0 stop0 : option Z) : option (list i
   let start := Z.max 0 (if (start <? 0)%Z then (len + start)%Z else start) in
   let stop := Z.max 0 (match stop0 with Some x => if (x <? 0)%Z then (len + x)%Z else x | None => len end) in
   Some (firstn (Z.to_nat (stop - start)) (skipn (Z.to_nat start) l)).
+
+(* Reader of a *quoted* target literal: opening quote, body read as by tdecode, the first
+   unescaped quote character closes the literal and must be its last character. *)
+Fixpoint qdecode (fuel : nat) (K : ecfg) (q : char) (s : str) : option (list item) :=
+  match fuel with
+  | O => None
+  | S f =>
+    match s with
+    | [] => None                                   (* unterminated literal *)
+    | c :: s' =>
+      if match e_esc K with Some e => N.eqb e c | None => false end then
+        match s' with
+        | d :: s'' => option_map (cons (Lit d)) (qdecode f K q s'')
+        | [] => None
+        end
+      else if N.eqb c q then match s' with [] => Some [] | _ => None end
+      else match starts (e_multi K) s with
+           | Some r => option_map (cons Multi) (qdecode f K q r)
+           | None =>
+             match starts (e_single K) s with
+             | Some r => option_map (cons Single) (qdecode f K q r)
+             | None => option_map (cons (Lit c)) (qdecode f K q s')
+             end
+           end
+    end
+  end.
+Definition qread (K : ecfg) (q : char) (s : str) : option (list item) :=
+  match s with
+  | c :: body => if N.eqb c q then qdecode (S (length body)) K q body else None
+  | [] => None
+  end.
